@@ -335,7 +335,7 @@ fn tag_of(t: u8) -> u32 {
 }
 
 fn mrid(t: u8, d: u8) -> ResourceId {
-    with_m!(t, T, ResourceId::new_with_dynamic_id::<T>(d as u64))
+    with_m!(t, T, ResourceId::new_with_dynamic_id::<T>(crate::res::dyn_id(if d == 1 { 2 } else { d })))
 }
 
 #[derive(Clone, Debug, Serialize, Deserialize, PartialEq)]
